@@ -260,6 +260,69 @@ def collapse_mapping_family(ctx, tier):
                             ctx.v("C17", "collapsed:precedence-modified", opd, "the caller's precedence list changed to %r" % (p_arg,))
 
 
+def numpy_length_family(ctx, tier):
+    """filtered(mask, mask.sum()): the new length arrives as a NumPy integer (what mask.sum() returns) and ends up in the shape; every operation
+    applied to such a result must still give the model's array with uint32 row ids.  (The shape's element type itself is not judged: the pinned
+    tree stores what it is given.)"""
+    from catii import iindexes
+
+    def ok(obj, exp, opd, opname):
+        ctx.n += 1
+        try:
+            got = M.read_dense(obj)
+        except Exception as e:  # noqa
+            ctx.v("C07", "%s:after-filtered:unreadable" % opname, opd, repr(e))
+            return
+        if got.tolist() != exp.tolist():
+            ctx.v("C06", "%s:after-filtered:dense" % opname, opd, "got %r, expected %r" % (got.tolist(), exp.tolist()))
+        bad = [k for k, v in dict.items(obj) if numpy.asarray(v).dtype != U32]
+        if bad:
+            ctx.v("C07", "%s:after-filtered:dtype" % opname, opd, "entries %r are not uint32: %r" % (bad, [str(numpy.asarray(dict.__getitem__(obj, k)).dtype) for k in bad]))
+
+    for shape in ((3,), (3, 2)):
+        for d in M.all_arrays(shape, range(3)):
+            for bits in itertools.product((False, True), repeat=shape[0]):
+                mask = numpy.array(bits, dtype=bool)
+                if not mask.any():
+                    continue
+                base = {"op": "filtered-then", "big": "numpy-length", "array": d.tolist(), "mask": [bool(b) for b in bits]}
+                fd = d[mask]
+
+                def fresh():
+                    return M.build_index(d, 0).filtered(mask, mask.sum())
+
+                try:
+                    ok(fresh(), fd, dict(base, then="nothing"), "filtered")
+                    r = fresh()
+                    o = numpy.full((1,) + shape[1:], 1, dtype=numpy.int64)
+                    r.append(M.build_index(o, 0))
+                    ok(r, numpy.concatenate([fd, o]), dict(base, then="append"), "append")
+                    # ... and the appended index goes on being used
+                    ok(r.copy(), numpy.concatenate([fd, o]), dict(base, then="append, copy"), "copy")
+                    r.union_update({(2,) + (0,) * (fd.ndim - 1): numpy.array([fd.shape[0]], dtype=U32)})
+                    exp2 = numpy.concatenate([fd, o])
+                    exp2[(fd.shape[0],) + (0,) * (fd.ndim - 1)] = 2
+                    r.difference_update({(1,) + (0,) * (fd.ndim - 1): numpy.array([fd.shape[0]], dtype=U32)})
+                    ok(r, exp2, dict(base, then="append, set updates"), "union_update")
+                    ok(fresh().copy(), fd, dict(base, then="copy"), "copy")
+                    r = fresh()
+                    r.shift_common(2)
+                    ok(r, fd, dict(base, then="shift_common(2)"), "shift_common")
+                    r = fresh()
+                    exp = fd.copy()
+                    cell = (0,) * fd.ndim
+                    exp[cell] = 2
+                    r.update({(2,) + cell[1:]: numpy.array([0], dtype=U32)})
+                    ok(r, exp, dict(base, then="update"), "update")
+                    ok(fresh().reindexed({0: 1, 1: 0}), numpy.where(fd == 0, 1, numpy.where(fd == 1, 0, fd)), dict(base, then="reindexed"), "reindexed")
+                    if len(shape) == 2:
+                        ok(fresh().sliced([1, 0]), fd[:, [1, 0]], dict(base, then="sliced"), "sliced")
+                    else:
+                        ok(iindexes.column_stack([fresh(), fresh()]), numpy.column_stack([fd, fd]), dict(base, then="column_stack"), "column_stack")
+                except Exception as e:  # noqa
+                    ctx.v("C06", "after-filtered:raised", base, repr(e))
+
+
 def parts(prop):
     """Three independent families as functions (res, tier) -> (violations of `prop`, counters)."""
     def mk(fn, label):
@@ -268,7 +331,8 @@ def parts(prop):
             fn(ctx, tier)
             return [v for v in ctx.viol if v["property"] == prop], {label: ctx.n}
         return run
-    return [mk(repr_family, "representation_cases_of_entry_updates"), mk(collapse_mapping_family, "collapsed_with_mapping_cases"), mk(big_family, "wide_and_tall_index_operations")]
+    return [mk(repr_family, "representation_cases_of_entry_updates"), mk(collapse_mapping_family, "collapsed_with_mapping_cases"), mk(big_family, "wide_and_tall_index_operations"),
+            mk(numpy_length_family, "operations_after_filtered_with_a_numpy_length")]
 
 
 def family(res, tier, prop):
